@@ -43,4 +43,5 @@ run C36 && mut C36 protocol/chainlib/chain_fetcher.go '	relayData.SeenBlock = 0 
 ' ''
 run C29 && mut C29 protocol/rpcprovider/rewardserver/reward_server.go 'if cuSumStored >= proof.CuSum {' 'if cuSumStored <= proof.CuSum {'
 run C33 && mut C33 protocol/relaycore/relay_processor.go 'if nilReplies >= crossValidationSize && maxCount < crossValidationSize {' 'if nilReplies >= crossValidationSize && maxCount <= crossValidationSize {'
+run C27 && mut C27 protocol/lavasession/provider_session_manager.go 'if singleProviderSession.RelayNum >= relayNumber {' 'if singleProviderSession.RelayNum+1 > relayNumber {'
 exit 0
